@@ -533,6 +533,20 @@ static void gen_cases(const sx::Options& opt, std::vector<sx::Case>& cases) {
   if (on("C01") || on("C03")) for (auto& s : fam) for (int alg = 0; alg < 3; alg++) { auto sp = std::make_shared<Spec>(s);
       add("net/" + s.name + "/" + ALGS[alg], "LocalNetwork vs exact oracle", [sp, alg] { sx::note("network", sp->name); case_c01(*sp, alg); }); }
   if (on("C02")) for (auto& s : fam) { auto sp = std::make_shared<Spec>(s); add("net-c02/" + s.name, "LocalNetwork: algorithms agree", [sp] { case_c02(*sp); }); }
+  if (on("C06")) {
+    // approximate coordinates omitted: the result must not depend on how the sections are listed or directed
+    qla::Rng rng(606 + opt.seed);
+    std::vector<Spec> lines;
+    lines.push_back(levelling("lev4-line-towards-benchmark", 4, {{4,3},{3,2},{2,1}}, "faaa", rng, 0));
+    lines.push_back(levelling("lev5-line-mixed-directions", 5, {{5,4},{3,4},{3,2},{1,2}}, "faaaa", rng, 0));
+    lines.push_back(levelling("lev5-line-from-far-end", 5, {{4,5},{3,4},{2,3},{1,2}}, "aaaaf", rng, 0));
+    lines.push_back(levelling("lev6-branches", 6, {{6,5},{5,2},{4,3},{3,2},{2,1}}, "faaaaa", rng, 1));
+    lines.push_back(vectors("vec4-line-towards-fixed", 4, {{4,3},{3,2},{2,1}}, "faaa", rng, 0));
+    for (auto& s0 : fam) { if (s0.name.find("fixed") == std::string::npos) continue; std::map<int,int> om; Spec a = transform(s0, 4, om); a.name = s0.name + "-ends-swapped"; lines.push_back(a); Spec b2 = transform(a, 2, om); b2.name = s0.name + "-ends-swapped-reversed"; lines.push_back(b2); }
+    int k = 0;
+    for (auto& s : lines) { int alg = (k++) % 3; auto sp = std::make_shared<Spec>(s);
+      add("net-c06/" + s.name + "/" + ALGS[alg] + "/mode2", "consistent observations reproduce the network (listing order)", [sp, alg] { case_c06(*sp, alg, 2); }); }
+  }
   if (on("C06")) for (auto& s : fam) for (int alg = 0; alg < 3; alg++) for (int mode = 0; mode < 3; mode++) {
       if (!th && alg != mode % 3 && mode != 1) continue;
       auto sp = std::make_shared<Spec>(s); add("net-c06/" + s.name + "/" + ALGS[alg] + "/mode" + std::to_string(mode), "consistent observations reproduce the network", [sp, alg, mode] { case_c06(*sp, alg, mode); }); }
